@@ -39,7 +39,7 @@ def spy(strategy_cls, body):
 def build(tier, seed):
     obs = []
     quick = tier == "quick"
-    T = 90 if quick else 900
+    T = 240 if quick else 900
     # O1: break iff required
     for n in (1, 2, 3):
         obs.append(assign_ob("O1.n%d" % n, n, ORACLE, WHAT, T))
